@@ -17,7 +17,8 @@ Record FieldLaws (F : FieldOps) := mkFieldLaws {
   FL_three : kadd F (k1 F) (kadd F (k1 F) (k1 F)) <> k0 F;
   FL_eqb   : forall x y, keqb F x y = true <-> x = y;
   FL_ltb_irrefl : forall x, kltb F x x = false;
-  FL_ltb_asym : forall x y, kltb F x y = true -> kltb F y x = false
+  FL_ltb_asym : forall x y, kltb F x y = true -> kltb F y x = false;
+  FL_total : forall x y, kltb F x y = false -> kltb F y x = false -> x = y
 }.
 
 (* ---------- Qc instance ---------- *)
@@ -48,7 +49,7 @@ Proof. unfold Qc_leb, Qcle. apply Qle_bool_iff. Qed.
 
 Definition QcLaws : FieldLaws QcOps.
 Proof.
-  refine (mkFieldLaws QcOps Qcft _ _ Qc_eqb_spec _ _).
+  refine (mkFieldLaws QcOps Qcft _ _ Qc_eqb_spec _ _ _).
   - intro H. apply (f_equal this) in H. discriminate H.
   - intro H. apply (f_equal this) in H. discriminate H.
   - intro x. unfold QcOps, kltb, Qc_ltb. 
@@ -57,6 +58,10 @@ Proof.
   - intros x y H. apply Qc_ltb_lt in H.
     destruct (kltb QcOps y x) eqn:E; [|reflexivity].
     apply Qc_ltb_lt in E. exfalso. exact (Qclt_not_le _ _ H (Qclt_le_weak _ _ E)).
+  - intros x y H1 H2. 
+    destruct (Qc_dec x y) as [[Hlt|Hgt]|Heq]; [| |exact Heq].
+    + apply Qc_ltb_lt in Hlt. change (kltb QcOps x y) with (Qc_ltb x y) in H1. congruence.
+    + apply Qc_ltb_lt in Hgt. change (kltb QcOps y x) with (Qc_ltb y x) in H2. congruence.
 Defined.
 
 (* ---------- R instance ---------- *)
@@ -76,7 +81,7 @@ Proof. unfold R_eqb. destruct (Req_EM_T x y); split; intros; try assumption; try
 
 Definition RLaws : FieldLaws ROps.
 Proof.
-  refine (mkFieldLaws ROps RealField.Rfield _ _ R_eqb_eq _ _).
+  refine (mkFieldLaws ROps RealField.Rfield _ _ R_eqb_eq _ _ _).
   - simpl. intro H. assert (0 < 1 + 1)%R by (apply Rplus_lt_0_compat; apply Rlt_0_1).
     rewrite H in H0. exact (Rlt_irrefl _ H0).
   - simpl. intro H. assert (0 < 1 + (1 + 1))%R by (repeat apply Rplus_lt_0_compat; apply Rlt_0_1).
@@ -84,6 +89,9 @@ Proof.
   - intro x. simpl. unfold R_ltb. destruct (Rlt_dec x x) as [H|H]; [exfalso; exact (Rlt_irrefl _ H)|reflexivity].
   - intros x y H. apply R_ltb_lt in H. simpl. unfold R_ltb.
     destruct (Rlt_dec y x) as [H'|H']; [exfalso; exact (Rlt_asym _ _ H H')|reflexivity].
+  - intros x y H1 H2. simpl in H1, H2. unfold R_ltb in H1, H2.
+    destruct (Rlt_dec x y); [discriminate|]. destruct (Rlt_dec y x); [discriminate|].
+    destruct (Rtotal_order x y) as [?|[?|?]]; [contradiction|assumption|contradiction].
 Defined.
 
 (* Notations for generic code: open scope kf inside a Section with Variable F. *)
